@@ -1,7 +1,7 @@
 #!/bin/bash
 # usage: confirm_mutant.sh Cxx mK   -- confirms a sub-agent's seeded change in its scratch worktree /tmp/wt/Cxx
 P=$1; M=$2
-WT=/tmp/wt/$P; OUT=/tmp/seed_out/$P/$M
+WT=${WT_ROOT:-/tmp/wt}/$P; OUT=${OUT_ROOT:-/tmp/seed_out}/$P/$M
 cd $WT || exit 2
 git checkout -q -- . ; git clean -fdq
 run_demo() { (cd $WT && PYTHONDONTWRITEBYTECODE=1 PYTHONPATH=$WT timeout 900 /venv/bin/python -W ignore $OUT/demo.py > $OUT/$1.log 2>&1; echo $?); }
